@@ -99,3 +99,28 @@ def lib_bits(mask, off):
 
 def spec_bits(segs):
     return {(byte, b) for byte, msb, lsb, _ in segs for b in range(lsb, msb + 1)}
+
+
+def facade_concrete_call(s, spec, overrides=None):
+    """call the facade method of `spec` with simple valid concrete arguments"""
+    a, e = concrete_args(spec)
+    fa = dict(a)
+    for k, kind in spec["extra"].items():
+        if kind in ("data", "modepage"):
+            fa[k] = e[k]
+    if spec["name"].startswith("PERSISTENT RESERVE IN/"):
+        fa["service_action"] = spec["sa"][1]
+    if spec["name"] == "READ CD":
+        fa.update(lba=16, tl=1, est=1, mcsb=2)
+    if overrides:
+        fa.update(overrides)
+    return getattr(s, spec["facade"])(**fa)
+
+
+FACADE_SET = {}
+
+
+def facade_set_for(spec):
+    for st in ("sbc", "spc", "smc", "mmc", "ssc"):
+        if st in spec["sets"]:
+            return st
